@@ -142,13 +142,12 @@ def handle (op : String) (j : Json) : Option Json :=
             | _ => none
           let pre := below preM
           let post := below (getObj ob "mps")
-          -- a mountpoint listed twice (stacked by hand) with another mountpoint below it: the
-          -- lower mount's children are hidden and cannot be unmounted before the upper one
-          let hiddenRegion := pre.any fun d => (pre.filter (· == d)).length > 1 && pre.any fun q => q != d && Fs.under d q
+          -- (a mountpoint stacked by hand over another mountpoint's parent directory hides that
+          -- mount: repaired by 05db66c, `umount` must succeed there too)
           if pre.isEmpty then none
           else if cls == "ok" && !post.isEmpty then some "umount reported success but mounts remain below the build root"
           else if cls != "ok" then
-            some (if hiddenRegion then "KNOWN:umount-order-hidden-submount" else "umount of an idle layer failed")
+            some "umount of an idle layer failed"
           else none
         else none
       (verdict, (getObj ob "tree", getObj ob "mps"))) (none, init)
@@ -156,11 +155,6 @@ def handle (op : String) (j : Json) : Option Json :=
         toStringLossy ((argv.filter fun t => t.head? != some 45).headD b!"(none)")).eraseDups
     match bad with
     | some why =>
-      if why == "KNOWN:umount-order-hidden-submount" then
-        some (obj [("model", model), ("holds", Json.bool false), ("finding", Json.str "umount-order-hidden-submount"),
-                   ("why", Json.str "umount of an idle layer fails: mountpoints are unmounted in descending path order, which meets a submount hidden below a mount stacked on its ancestor"),
-                   ("tags", Json.arr (tags.map Json.str).toArray)])
-      else
       some (obj [("model", model), ("holds", Json.bool false), ("why", Json.str why),
                              ("tags", Json.arr (tags.map Json.str).toArray)])
     | none => some (obj [("model", model), ("holds", Json.bool true), ("tags", Json.arr (tags.map Json.str).toArray)])
